@@ -1,26 +1,11 @@
 //! C14 correspondence: random reader-operation programs executed on the real ReadScope /
 //! ReadCtxt / ReadArray, printed in the same line format the OCaml model driver produces.
-use crate::prng::{hex, Rng};
+use avh::prng::{hex, unhex, Rng};
+use avh::{build_mode, harness_main, panic_kind, perr};
 use allsorts::binary::read::{ReadArray, ReadCtxt, ReadScope, ReadUnchecked};
 use allsorts::binary::{I16Be, I32Be, I64Be, U16Be, U24Be, U32Be, U64Be, I8, U8};
 use allsorts::error::ParseError;
 use std::panic::{catch_unwind, AssertUnwindSafe};
-
-pub fn perr(e: &ParseError) -> &'static str {
-    match e {
-        ParseError::BadEof => "Eof",
-        ParseError::BadValue => "BadValue",
-        ParseError::BadVersion => "BadVersion",
-        ParseError::BadOffset => "BadOffset",
-        ParseError::BadIndex => "BadIndex",
-        ParseError::LimitExceeded => "LimitExceeded",
-        ParseError::MissingValue => "MissingValue",
-        ParseError::MissingTable(_) => "MissingTable",
-        ParseError::CompressionError => "CompressionError",
-        ParseError::UnsuitableCmap => "UnsuitableCmap",
-        ParseError::NotImplemented => "NotImplemented",
-    }
-}
 
 pub trait ToVals {
     fn vals(&self, out: &mut Vec<i128>);
@@ -295,21 +280,6 @@ fn step<'a>(st: &mut St<'a>, op: &str) -> Out {
     }
 }
 
-pub fn panic_kind(e: &(dyn std::any::Any + Send)) -> &'static str {
-    let msg = if let Some(s) = e.downcast_ref::<&str>() {
-        s.to_string()
-    } else if let Some(s) = e.downcast_ref::<String>() {
-        s.clone()
-    } else {
-        String::new()
-    };
-    if msg.contains("VERIF-OOB") {
-        "oob"
-    } else {
-        "panic"
-    }
-}
-
 /// run a program; returns the result string in the model driver's format
 pub fn run_program(buf: &[u8], ops: &[String]) -> String {
     let scope = ReadScope::new(buf);
@@ -412,4 +382,19 @@ pub fn gen_program(rng: &mut Rng) -> (Vec<u8>, Vec<String>) {
 
 pub fn case_line(mode: &str, buf: &[u8], ops: &[String]) -> String {
     format!("{}|{}|{}", mode, hex(buf), ops.join(" "))
+}
+
+fn main() {
+    // input = M|BUFHEX|op op ...; the mode letter is replaced by this build's mode
+    let run = |input: &str| -> String {
+        let parts: Vec<&str> = input.split('|').collect();
+        let buf = unhex(parts[1]);
+        let ops: Vec<String> = parts[2].split(' ').filter(|s| !s.is_empty()).map(String::from).collect();
+        run_program(&buf, &ops)
+    };
+    let mut gen = |rng: &mut Rng| -> String {
+        let (buf, ops) = gen_program(rng);
+        case_line(build_mode(), &buf, &ops)
+    };
+    harness_main(&run, &mut gen);
 }
